@@ -278,6 +278,10 @@ func genHistory(g *sim.Stream, f *sim.Stream) []*invocation {
 				if g.Chance(1, 2) {
 					iv.IsLib = true
 					iv.Src = c07Lib + fmt.Sprintf("\n%d\n", 1000+g.Intn(1000))
+				} else if g.Chance(1, 3) {
+					// one fixed script that rebinds a host-supplied global: every run
+					// of it starts from the host's value
+					iv.Src = "hits = hits + 1\nseen := [hits, hits * 2]\nseen"
 				} else {
 					a, b := g.Range(1, 120), g.Range(1, 9)
 					iv.Src = fmt.Sprintf("x := 0\nfor i := 0; i < %d; i++ { x += i * %d }\ny := [x, %d]\ny", a, b, b)
@@ -498,6 +502,7 @@ func runC07(rc *fw.RunCtx) {
 		return object.Nil
 	})}
 	extra["os"] = modOs.Module()
+	extra["hits"] = 0 // a data global supplied by the host, which scripts rebind
 	var gnames []string
 	for k := range baseGlobals(extra) {
 		gnames = append(gnames, k)
@@ -529,10 +534,19 @@ func runC07(rc *fw.RunCtx) {
 	cfgModel := newCfg() // reference runs use their own importer
 
 	// compile payloads once (shared read-only between the VM under test and the models)
+	// (a host that compiles a script once and runs it many times hands the VM
+	// the same code object again and again: identical sources share one)
 	codes := make([]*compiler.Code, len(hist))
+	bySrc := map[string]*compiler.Code{}
 	for i, iv := range hist {
 		if iv.API == "RunCode" || (iv.API == "Run" && iv.IsLib) {
+			if c, ok := bySrc[iv.Src]; ok {
+				codes[i] = c
+				rc.Hit("same_code_object_run_again")
+				continue
+			}
 			codes[i] = compileSrc(iv.Src, cfg)
+			bySrc[iv.Src] = codes[i]
 		}
 	}
 	mainFamily := hist[0].API == "Run"
